@@ -17,6 +17,9 @@ CHECKS = {
  "C03": dict(cat="model_checking", design="DESIGN.md section 5 C03",
    technique="TLA+ spec Tagging.tla (X.680 31.2.7 a-c as separate invariants) model-checked exhaustively with TLC; all 960 legal tag points + 96 automatic-tagging points replayed through the real compiler; recorded trace validated by TLC against the spec, known deviations as named TLA+ operators",
    text="TLC enumerates the complete product the property names (module default x keyword x class x position x tagged kind: 1200 points, 960 legal, plus 96 automatic-tagging points), checks the three clauses of 31.2.7 and their converse on the model, refutes each deviation model, and validates for every point the tag annotation the compiler emitted (presence, class, number, explicit/implicit marking, automatic_tags). Observation is at attribute level; the encodings rasn 0.27 produces for each marking on CHOICE / open types were measured with a probe and are built into the acceptance predicate."),
+ "C04": dict(cat="model_checking", design="DESIGN.md section 5 C04",
+   technique="TLA+ spec PerVisible.tla (denotational semantics Denote vs effective constraint Eff, Sound/Tight checked by TLC on the whole bounded algebra); every TLC-generated constraint series replayed through the real compiler on each constrainable type/position; recorded trace validated by TLC, known deviations as named TLA+ operators",
+   text="TLC enumerates the bounded constraint algebra slice by slice (quick: all <=2-operand expressions over the 7-point endpoint alphabet x extension marker x 14 type/position targets, one serial constraint, open ends: 68 852 cases; thorough adds all 3-operand expressions and two serial constraints), proves Eff sound and tight against the set semantics on the model, and validates the annotations the compiler emitted along the delegate chain in three grades: never excludes a permitted value, extensible iff marker, equals Eff."),
 }
 
 NOT_BUILT = "check not built yet (DESIGN.md section 13 build order)"
